@@ -823,6 +823,43 @@ def fam_chain(max_len):
   return _fam(f"F-chain[<={max_len}]", prod.n, decode, "two-block extension chain: x<tf1> | <tf2>y over {A, space, newline, 8Fh, colour}")
 
 
+def fam_full():
+  """text fields that use (almost) all 112 bytes: with 2, 1 and 0 unused-space bytes at the end, alone and in extension chains"""
+  def field(n, rows):
+    # `rows` rows of distinct characters separated by newline codes, n bytes in total, the last byte is 'Z'
+    body = []
+    per = (n - (rows - 1)) // rows
+    for r in range(rows):
+      ln = per if r < rows - 1 else n - (rows - 1) - per * (rows - 1)
+      body.append(bytes(0x41 + (r * 7 + k) % 25 for k in range(ln)))
+    tf = b"\x8a".join(body)
+    assert len(tf) == n
+    return tf[:-1] + b"Z"
+  items = []
+  for n in (109, 110, 111, 112):
+    for rows in (1, 2, 3):
+      for dsc in (b"1", b"0"):
+        for shape in ("single", "first-of-chain", "last-of-chain", "both"):
+          items.append((n, rows, dsc, shape))
+
+  def decode(i):
+    n, rows, dsc, shape = items[i]
+    tf = field(n, rows)
+    if shape == "single":
+      ttis = [{"sn": 3, "ebn": 0xFF, "tf": tf, "tci": [0, 0, 1, 0], "tco": [0, 0, 2, 0]}]
+    elif shape == "first-of-chain":
+      ttis = [{"sn": 3, "ebn": 0, "tf": tf, "tci": [0, 0, 1, 0], "tco": [0, 0, 2, 0]},
+              {"sn": 3, "ebn": 0xFF, "tf": b"lmn", "tci": [0, 0, 1, 0], "tco": [0, 0, 2, 0]}]
+    elif shape == "last-of-chain":
+      ttis = [{"sn": 3, "ebn": 0, "tf": b"lmn", "tci": [0, 0, 1, 0], "tco": [0, 0, 2, 0]},
+              {"sn": 3, "ebn": 0xFF, "tf": tf, "tci": [0, 0, 1, 0], "tco": [0, 0, 2, 0]}]
+    else:
+      ttis = [{"sn": 3, "ebn": 0, "tf": tf, "tci": [0, 0, 1, 0], "tco": [0, 0, 2, 0]},
+              {"sn": 3, "ebn": 0xFF, "tf": field(n, 1), "tci": [0, 0, 1, 0], "tco": [0, 0, 2, 0]}]
+    return {"focus": "ebn", "gsi": {"dsc": dsc}, "ttis": ttis, "nt": True}
+  return _fam("F-full", len(items), decode, "text fields of 109..112 used bytes (112 = no unused-space byte at all) x 1-3 rows x single block / extension chains")
+
+
 SCHEDULES = [
   # (tci seconds, tco seconds) per subtitle: common end / staggered
   [(1, 9), (2, 9), (3, 9), (4, 9)],
@@ -1051,6 +1088,7 @@ def plan(tier, seed):
     fams.append(_strings_family("F-tf-core-teletext[<=5]", A_CORE, 5, b"1", "all strings over the 9-class core alphabet"))
     fams.append(_strings_family("F-tf-core-open[<=5]", A_CORE, 5, b"0", "all strings over the 9-class core alphabet"))
     fams.append(fam_chain(2))
+    fams.append(fam_full())
     fams.append(fam_ebn(3))
     fams.append(fam_cs(3))
   else:
@@ -1061,6 +1099,7 @@ def plan(tier, seed):
     fams.append(_strings_family("F-tf-core-teletext[<=6]", A_CORE, 6, b"1", "all strings over the 9-class core alphabet"))
     fams.append(_strings_family("F-tf-core-open[<=6]", A_CORE, 6, b"0", "all strings over the 9-class core alphabet"))
     fams.append(fam_chain(3))
+    fams.append(fam_full())
     fams.append(fam_ebn(4))
     fams.append(fam_cs(4))
   for cct in ("00", "01", "02", "03", "04"):
